@@ -70,7 +70,6 @@ let handle kind c =
          let where = Printf.sprintf "op-%d-%s-%s" opi ok dmg in
          (* ---- model ---- *)
          let f = model_of before in
-         let wraps_here = (ok = "new") && wraps f h name in
          let (mres, f') =
            match ok with
            | "lookup" ->
@@ -94,8 +93,7 @@ let handle kind c =
          (* ---- oracles on the implementation ---- *)
          (match status with
           | "hang" ->
-            if wraps_here then prop "limit-wrap-hang" (Printf.sprintf "%s: newCounter did not return (allocation limit %s: round(end, pageSize) wraps to 0)" where (hexn (rd32 f h)))
-            else prop "hang" (Printf.sprintf "%s: the call did not return within the step budget" where)
+            prop "hang" (Printf.sprintf "%s: the call did not return within the step budget (allocation limit found in the file: %s)" where (hexn (rd32 f h)))
           | "panic" -> prop "panic" (Printf.sprintf "%s: the call panicked" where)
           | _ -> ());
          List.iter (fun (what, nm, off, nl, b, a) ->
